@@ -72,6 +72,7 @@ type stty struct {
 	cb       func()
 	calls    []string
 	c        *ctl
+	failStart bool // the next Start fails (the terminal is temporarily unavailable), one shot
 }
 
 func newTty(c *ctl, w, h int) *stty {
@@ -84,6 +85,10 @@ func (t *stty) Start() error {
 	t.mu.Lock()
 	defer t.mu.Unlock()
 	t.call("Start")
+	if t.failStart {
+		t.failStart = false
+		return errors.New("tty: temporarily unavailable")
+	}
 	t.stopped, t.draining = false, false
 	return nil
 }
@@ -1660,6 +1665,23 @@ func (sc *scenario) director(nPost, perPost int, postWait bool) {
 				sc.traceAtResume = len(c.trace)
 				c.mu.Unlock()
 			}
+		case "resumefail":
+			// a Resume during which Tty.Start fails: the call reports the error, the screen stays suspended and everything that
+			// follows — another Resume, Suspend, Fini — behaves as if this call had not been made
+			c.park("dir-step", nil, false)
+			sc.tty.mu.Lock()
+			sc.tty.failStart = true
+			sc.tty.mu.Unlock()
+			c.env("resume")
+			if err := s.Resume(); err == nil {
+				sc.tag("resumefail-no-error")
+				sc.suspendedNow = false
+			} else {
+				sc.tag("resume-start-error")
+			}
+			sc.tty.mu.Lock()
+			sc.tty.failStart = false
+			sc.tty.mu.Unlock()
 		case "check2":
 			c.park("wait-stall", never, true)
 			sc.resumeCheck()
